@@ -20,6 +20,9 @@ FOCI = {
     "H": "a change on an exception / refusal path: what is left behind (state, step, queued PDUs, counters, timers, files) after a protocol exception was raised, a request was refused, or a fault was declared, so that the *next* call or the next transaction misbehaves",
     "I": "a change that only matters when the entity deals with more than one peer or more than one handler object: several remote entity configurations in one table, requests towards different destinations one after the other (or refused while another runs), two handler instances sharing a user / filestore / configuration object, a peer whose configured parameters differ from this entity's own",
     "J": "a change in the interplay of two procedures of one transaction which each still work alone: e.g. a NAK retransmission while the EOF's ACK timer is running, a Finished PDU arriving while data is being re-sent, a cancel request while a retry procedure is active, the check timer against late data, a fault declared in a call which already queued PDUs",
+    "K": "a change that only shows under a particular relative pacing of the two entities: one entity makes several state machine calls before the other gets its turn, PDUs pile up on the link and answers (ACK, NAK, Finished) arrive late but in order, the sender is far ahead of the receiver's NAKs or the receiver works in bursts",
+    "L": "a change in how the library treats objects it shares with its user: PutRequest, RemoteEntityCfg / LocalEntityCfg / IndicationCfg, the parameter objects passed to indication callbacks, PDU objects handed in or out - mutated, kept by reference and read later, or copied too early, so that what the user does with the object afterwards (re-use, edit, inspect later) goes wrong",
+    "M": "a change in the handling of time: a Countdown created too early or too late, reset at the wrong place or not at all, an expiry consumed by the wrong procedure, behaviour when the user changes an interval between transactions or when an interval is very small or very large",
     "D": "a boundary-value problem that needs an unusual but legal configuration or input (entity-id or sequence-number width, CRC flag, checksum type, file size relative to segment length or packet length, limit of 1, zero-length or maximum-length field, large-file flag)",
 }
 for pid in sys.argv[1:]:
